@@ -168,3 +168,36 @@ Definition load_schema_pub (isa : N -> bool) (fixed : bool) (rp : repo) (f : sfi
                      end
               end).
 
+
+(* ------------------------------------------------------------------ the place named by INVALID_PARENT_NODE *)
+
+(* HedSchema._validate_remaining_terms: the running position word_start_index and the first extension word that is
+   a tag of the schema; result = (index_in_tag, index_in_tag_end) *)
+Fixpoint first_schema_word (T : table) (names : list str) (pos : nat) : option (nat * nat) :=
+  match names with
+  | [] => None
+  | nm :: r =>
+      match km_get [nm] (t_keys T) with
+      | Some _ => Some (pos, pos + length nm)
+      | None => first_schema_word T r (pos + length nm + 1)
+      end
+  end.
+
+(* length of "c1/c2/.../ck/" *)
+Definition words_offset (comps : list str) : nat := fold_right (fun c a => length c + 1 + a) 0 comps.
+
+(* the place reported when _find_tag_entry ends with INVALID_PARENT_NODE; adj = len(namespace) (prefix_tag_adj) *)
+Definition invalid_parent_span (T : table) (clean : str) (adj : nat) : option (nat * nat) :=
+  let comps := split_on ch_slash clean in
+  let w := map fold_ascii comps in
+  match km_get w (t_keys T) with
+  | Some _ => None
+  | None =>
+      match walk T w 0 (length w) None with
+      | (Some e, k) =>
+          if Nat.ltb k (length w) && (match takes_value_child T e with None => true | Some _ => false end)
+          then first_schema_word T (skipn k w) (adj + words_offset (firstn k comps))
+          else None
+      | (None, _) => None
+      end
+  end.
